@@ -5,7 +5,7 @@
 
 package parser
 
-//@ props C01 C10 C08
+//@ props C01 C10 C08 C17
 
 //@ wf elems
 //@ default opaque
@@ -90,7 +90,14 @@ package parser
 //@   ensures result == WORD ==> len(l.word) >= 1
 //@   ensures result == IO_NUMBER ==> len(l.word) == 1 && l.word[0] is *ast.Lit
 //@   ensures result != WORD && result != IO_NUMBER && result >= 0 ==> len(l.word) == 0
+// The word after an alias whose value ends in a blank is examined too, and
+// so is each word that such a replacement yields: whether words are examined is
+// decided by the alias stack as scanToken finds it.
+//@ spec func afterblank(l *lexer) bool = len(l.aliases) != 0 && rpos(l.aliases[len(l.aliases)-1].value) >= len(rsrc(l.aliases[len(l.aliases)-1].value)) && l.aliases[len(l.aliases)-1].blank
 //@ func (*lexer).scanToken
+//@   site SUBST = call parser.(*lexer).subst
+//@   assert[C17] at call parser.(*lexer).subst: only-after-a-trailing-blank: old(afterblank(l)) && tok == WORD
+//@   ensures[C17] word-after-blank-examined: old(afterblank(l)) && result == WORD ==> site(SUBST)
 //@   ensures result == WORD ==> len(l.word) >= 1
 //@   ensures result == IO_NUMBER ==> len(l.word) == 1 && l.word[0] is *ast.Lit
 //@   ensures result != WORD && result != IO_NUMBER && result >= 0 ==> len(l.word) == 0
@@ -158,11 +165,18 @@ package parser
 //@   requires tokready(l)
 //@ func (*lexer).lexArithEval
 //@   requires tokready(l)
+// Where a position accepts reserved words ("in"/"do" after the for-loop
+// variable, "do" after the word list) they are ruled out before an alias is
+// looked up: a reserved word is never replaced.
 //@ func (*lexer).lexFor
 //@   requires tokready(l)
+//@   assert[C17] at call parser.(*lexer).subst#1: reserved-word-first: tok != Do
+//@   assert[C17] at call parser.(*lexer).subst#2: reserved-word-first: tok != In && tok != Do
+//@   assert[C17] at call parser.(*lexer).subst#3: reserved-word-first: tok != Do
 //@   loop "for" invariant len(l.word) == 0
 //@ func (*lexer).lexCase
 //@   requires tokready(l)
+//@   assert[C17] at call parser.(*lexer).subst: reserved-word-first: !(tok == WORD && len(l.word) == 1 && l.word[0] is *ast.Lit && l.word[0].(*ast.Lit).Value == "in")
 //@ func (*lexer).lexCaseBreak
 //@   requires tokready(l)
 //@ func (*lexer).lexIf
@@ -183,16 +197,36 @@ package parser
 //@   requires tokready(l)
 
 //@ func (*lexer).tr
+//@   ensures[C17] reserved-translated: tok == WORD && len(l.word) == 1 && l.word[0] is *ast.Lit && has(words, l.word[0].(*ast.Lit).Value) ==> result == words[l.word[0].(*ast.Lit).Value]
 //@   ensures result != tok ==> len(l.word) == 1 && l.word[0] is *ast.Lit && result > 255
 //@   preserves *
 
 //@ func (*lexer).isAssign
 //@   requires len(l.word) >= 1
 
-// An alias is substituted only when subst says so; otherwise the pending word stays.
+// ---- alias substitution (C17) ----
+//
+// subst never pushes a name that is already on the alias stack and keeps
+// the rest of the stack; read only pops.  So an alias is not expanded inside
+// its own expansion, the names on the stack stay pairwise distinct (by
+// induction over the pushes; not stated as one formula) and the stack is never
+// deeper than the alias table is large, which is what makes every table
+// (self-referential and mutually recursive ones included) terminate.  Only a pending word that is one unquoted literal
+// naming an alias is ever replaced.
 //@ func (*lexer).subst
 //@   ensures !result ==> l.word == old(l.word)
 //@   ensures result ==> len(l.word) == 0
+//@   loop "for _, a := range l.aliases" invariant[C17] not-on-the-stack-so-far: forall j: 0 <= j && j <= rangeindex ==> l.aliases[j].name != w.Value
+//@   ensures[C17] only-an-unquoted-alias-name: result ==> old(len(l.word)) == 1 && old(l.word[0]) is *ast.Lit && l.env != nil && has(l.env.Aliases, old(l.word[0].(*ast.Lit).Value))
+//@   ensures[C17] one-pushed: result ==> len(l.aliases) == old(len(l.aliases)) + 1
+//@   ensures[C17] rest-of-the-stack-kept: result ==> (forall j: 0 <= j && j < old(len(l.aliases)) ==> l.aliases[j] == old(l.aliases[j]))
+//@   ensures[C17] never-inside-its-own-expansion: result ==> (forall j: 0 <= j && j < old(len(l.aliases)) ==> old(l.aliases[j].name) != old(l.word[0].(*ast.Lit).Value))
+//@   ensures[C17] pushed-is-the-alias: result ==> l.aliases[len(l.aliases)-1].name == old(l.word[0].(*ast.Lit).Value) && rpos(l.aliases[len(l.aliases)-1].value) == 0
+//@   ensures[C17] value-not-longer: result ==> len(rsrc(l.aliases[len(l.aliases)-1].value)) >= 1 && len(rsrc(l.aliases[len(l.aliases)-1].value)) <= len(l.env.Aliases[l.aliases[len(l.aliases)-1].name]) + 1
+//@   ensures[C17] value-ends-in-one-blank: result ==> rsrc(l.aliases[len(l.aliases)-1].value)[len(rsrc(l.aliases[len(l.aliases)-1].value))-1] == ' '
+//@   ensures[C17] value-is-a-prefix: result ==> (forall k: 0 <= k && k < len(rsrc(l.aliases[len(l.aliases)-1].value)) - 1 ==> rsrc(l.aliases[len(l.aliases)-1].value)[k] == l.env.Aliases[l.aliases[len(l.aliases)-1].name][k])
+//@   ensures[C17] blank-flag: result ==> l.aliases[len(l.aliases)-1].blank == (len(l.env.Aliases[l.aliases[len(l.aliases)-1].name]) > len(rsrc(l.aliases[len(l.aliases)-1].value)) - 1)
+//@   ensures[C17] nothing-pushed: !result ==> l.aliases == old(l.aliases)
 
 //@ func (*lexer).lexCaseItem
 //@   loop "for" invariant tokword(l, tok)
@@ -215,6 +249,7 @@ package parser
 // The two goroutines' accesses to the slot are serialised by l.mu; the
 // contracts describe each critical section, not the interleaving.
 //@ func (*lexer).read
+//@   ensures[C17] only-pops: len(l.aliases) <= old(len(l.aliases)) && (forall j: 0 <= j && j < len(l.aliases) ==> l.aliases[j] == old(l.aliases[j]))
 //@   ensures[C10] read-error-recorded: result1 != nil && result1 != io.EOF ==> l.err != nil
 //@   ensures[C10] first-error-kept: old(l.err) != nil ==> l.err == old(l.err)
 //@   ensures[C10] slot-holds-the-read-error: old(l.err) == nil && l.err != nil ==> l.err == result1
